@@ -1,5 +1,5 @@
 use crate::{
-  native, native_with_error,
+  create_error, native, native_with_error,
   support::{export_and_insert, load_class_from_module},
   StdResult,
 };
@@ -171,12 +171,9 @@ impl LyNative for TupleStr {
           buf.push_str(", ");
         } else {
           // if error throw away temporary strings
-          return hooks.call(
-            self.error,
-            &[val!(hooks.manage_str(format!(
+          return create_error!(self.error, hooks, format!(
               "Expected type str from {item}.str()"
-            )))],
-          );
+            ));
         });
       }
 
@@ -192,13 +189,10 @@ impl LyNative for TupleStr {
           buf.push_str(&string);
         } else {
           // if error throw away temporary strings
-          return hooks.call(
-            self.error,
-            &[val!(hooks.manage_str(format!(
+          return create_error!(self.error, hooks, format!(
               "Expected type str from {}.str()",
               *last
-            )))],
-          );
+            ));
         });
       })
     }
